@@ -144,7 +144,7 @@ def t_parallel_data_fewer_entries_than_pointers(m, v):
 @st.composite
 def big_matrices(draw):
     fam = draw(st.sampled_from(['random'] * 7 + ['dense', 'empty', 'single']))
-    size = draw(st.sampled_from(['small', 'medium', 'large', 'large', 'large']))
+    size = draw(st.sampled_from(['small', 'medium', 'large', 'large', 'large', 'large']))
     lo, hi = {'small': (1, 6), 'medium': (5, 15), 'large': (12, 30)}[size]
     n_major = draw(st.integers(lo, hi))
     n_minor = draw(st.integers(lo, hi))
@@ -157,7 +157,7 @@ def big_matrices(draw):
     m = {'shape': [n_major, n_minor], 'seed': draw(st.integers(0, 2**31 - 1)), 'family': fam,
          'vdtype': draw(st.sampled_from(VALUE_DTYPES))}
     if fam == 'random':
-        m['density'] = draw(st.sampled_from([0.03, 0.15, 0.4, 0.4, 0.7, 0.95]))
+        m['density'] = draw(st.sampled_from([0.03, 0.15, 0.4, 0.6, 0.8, 0.95]))
         m['empty_major'] = draw(st.lists(st.integers(0, n_major - 1), max_size=3, unique=True))
         m['empty_minor'] = draw(st.lists(st.integers(0, n_minor - 1), max_size=3, unique=True))
     if draw(st.integers(0, 5)) == 0:
@@ -188,13 +188,13 @@ def transposition_cases(draw):
             'src_chunks': draw(st.sampled_from([None, None, 1, 7, 64]))}
 
 
-SMALL_VALUES = [0, 0, 0, 0, 1, 2, 3, 9, 17, 60]
+SMALL_VALUES = [0, 0, 0, 1, 2, 3, 9, 17, 60]
 
 
 @st.composite
-def small_dense(draw, n_rows=None, n_cols=None, max_rows=7, max_cols=6):
+def small_dense(draw, n_rows=None, n_cols=None, max_rows=7, max_cols=6, min_rows=1):
     """explicit small matrix (list of rows of non-negative ints) so that it shrinks well"""
-    nr = n_rows if n_rows is not None else draw(st.integers(1, max_rows))
+    nr = n_rows if n_rows is not None else draw(st.integers(min_rows, max_rows))
     nc = n_cols if n_cols is not None else draw(st.integers(1, max_cols))
     fam = draw(st.sampled_from(['any'] * 6 + ['zero', 'single', 'full']))
     if fam == 'zero':
@@ -213,9 +213,9 @@ def _frame_cols(n, tag):
 
 
 @st.composite
-def h5ad_files(draw, encs=('csr', 'csc', 'dense'), n_cols=None, dtype=None, layers=(None, 'raw'),
+def h5ad_files(draw, encs=('csr', 'csc', 'dense'), n_cols=None, dtype=None, layers=(None, 'raw'), min_rows=1,
                layouts=('anndata', 'anndata', 'small_chunks', 'contiguous')):
-    x = draw(small_dense(n_cols=n_cols))
+    x = draw(small_dense(n_cols=n_cols, min_rows=min_rows))
     nr, nc = len(x), len(x[0])
     scheme = draw(st.sampled_from(['c', 'num', 'uni']))
     cells = {'c': [f'c{i}' for i in range(nr)], 'num': [str(100 + 3 * i) for i in range(nr)],
@@ -239,7 +239,7 @@ def fileop_cases(draw):
         spec['max_gb'] = draw(st.sampled_from(BUDGETS))
         spec['compression'] = draw(st.booleans())
     elif op == 'shuffle':
-        spec['src'] = draw(h5ad_files(encs=('csr',), layers=(None,)))
+        spec['src'] = draw(h5ad_files(encs=('csr',), layers=(None,), min_rows=draw(st.sampled_from([1, 2, 3]))))
         spec['order'] = list(draw(st.permutations(list(range(len(spec['src']['x']))))))
         spec['compression'] = draw(st.booleans())
     elif op == 'subset':
@@ -299,3 +299,22 @@ def h5_trees(draw):
             e['attrs'] = {'note': f'n{e["seed"] % 97}', 'k': e['seed'] % 13}
         out.append(e)
     return out
+
+
+@st.composite
+def sparse_util_cases(draw):
+    """in-memory pointer arithmetic of utils/sparse_utils.py"""
+    op = draw(st.sampled_from(['merge_csr', 'load_csr_chunk', 'load_csr', 'load_csc']))
+    x = draw(small_dense(max_rows=8, max_cols=7))
+    nr, nc = len(x), len(x[0])
+    spec = {'kind': 'S', 'op': op, 'x': x, 'dtype': draw(st.sampled_from(VALUE_DTYPES))}
+    if op == 'merge_csr':
+        n_cuts = draw(st.integers(0, min(3, nr - 1)))
+        cuts = sorted(draw(st.lists(st.integers(1, nr - 1), min_size=n_cuts, max_size=n_cuts, unique=True))) if n_cuts else []
+        spec['cuts'] = cuts
+    else:
+        r0 = draw(st.integers(0, nr - 1))
+        spec['rows'] = [r0, draw(st.integers(r0 + 1, nr))]
+        c0 = draw(st.integers(0, nc - 1))
+        spec['cols'] = [c0, draw(st.integers(c0 + 1, nc))]
+    return spec
